@@ -52,6 +52,7 @@ type Frame struct {
 	// Exc_type      Object
 	// Exc_value     *Object
 	// Exc_traceback *Object
+	Exc ExceptionInfo // the exception being handled when the frame yielded (generators only)
 	// Borrowed reference to a generator, or NULL
 	// Gen Object
 
